@@ -652,12 +652,12 @@ def correspond(ctx):
 
         # a valid call
         if status != "ok":
-            mok = isinstance(m, tuple) and m[0] == "Ok"
+            mok = isinstance(m, tuple) and (m[0] == "Ok" or (mode == "pairs" and isinstance(m[0], tuple) and m[0][0] == "Ok"))
             if mok:
                 corr.disagree(inp, "rejected " + str(out), "Ok", "accept/reject differs")
             corr.count(key, nontrivial=True, sample=inp)
             continue
-        if not (isinstance(m, tuple) and m[0] == "Ok"):
+        if mode == "table" and not (isinstance(m, tuple) and m[0] == "Ok"):
             corr.disagree(inp, "accepted", str(m)[:200], "accept/reject differs")
             corr.count(key, nontrivial=True, sample=inp)
             continue
@@ -751,7 +751,7 @@ def correspond(ctx):
             else:
                 for (x, y), e in zip(pairs, elems):
                     v = E[_flat(x, dims), _flat(y, dims)]
-                    if isinstance(e, tuple) and e[0] == "Ok" and e[1] is None:
+                    if isinstance(e, tuple) and e[0] == "Ok" and (e[1] is None or e[1] == "None"):
                         want = 0.0
                     elif isinstance(e, tuple) and e[0] == "Ok":
                         r, cc = e[1][1]
